@@ -161,6 +161,20 @@ impl<'tcx> Cx<'tcx> {
                 }
             }
             Const::Val(ConstValue::Scalar(s), t) => {
+                if let rustc_middle::mir::interpret::Scalar::Ptr(ptr, _) = s {
+                    let (prov, _off) = ptr.prov_and_relative_offset();
+                    if let Some(ga) = self.tcx.try_get_global_alloc(prov.alloc_id()) {
+                        match ga {
+                            rustc_middle::mir::interpret::GlobalAlloc::Static(did) => {
+                                o.push(("static", J::s(dpath(self.tcx, did))));
+                            }
+                            rustc_middle::mir::interpret::GlobalAlloc::Function { instance, .. } => {
+                                o.push(("fnptr", J::s(dpath(self.tcx, instance.def_id()))));
+                            }
+                            _ => {}
+                        }
+                    }
+                }
                 if let Ok(i) = s.try_to_scalar_int() {
                     let size = i.size();
                     let bits = i.to_bits(size);
